@@ -201,4 +201,91 @@ theorem parentWF_ty (par : Option CType) (hwf : ParentWF par) : ∀ t, par = som
   | simple tn q basic => exact hwf.2.2.2
   | templ nss name ps q => exact hwf
 
+theorem colon_no_lbrace (X : List Lexeme) : answerL (.lit ":") (.sym "{" :: X) = .no := by
+  simp (config := {decide := true}) [answerL_sym, ansSym]
+theorem colon_no_semi (X : List Lexeme) : answerL (.lit ":") (.sym ";" :: X) = .no := by
+  simp (config := {decide := true}) [answerL_sym, ansSym]
+theorem semi_no_lbrace (X : List Lexeme) : answerL (.lit ";") (.sym "{" :: X) = .no := by
+  simp (config := {decide := true}) [answerL_sym, ansSym]
+
+/-- what the class body reader does to an already read parent -/
+theorem classBody_lex (tmpl : Option Template) (virt : Bool) (w : String) (par : Option CType) (hpar : ParentWF par)
+    (ms : List Member) (hms : MembersWF ms) (hctor : ctorNamesOk w ms = true) (n : Nat) (hn : membersFuel ms ≤ n) (Y : List Lexeme) :
+    runL (classBody n tmpl virt w par) (.sym "{" :: (membersLex ms ++ .sym "}" :: .sym ";" :: Y)) = .ok (.cls ⟨tmpl, virt, w, par, ms⟩) Y := by
+  have h1 := pmembers_lex ms hms n (.sym ";" :: Y) hn
+  cases par with
+  | none =>
+    simp (config := {decide := true}) [classBody, runL_bind, runL_expect, answerL_sym, ansSym, h1, hctor]
+  | some t =>
+    cases t with
+    | simple tn q basic =>
+      obtain ⟨hq, hb, hs, _⟩ := hpar
+      subst hq hb
+      simp (config := {decide := true}) [classBody, runL_bind, runL_expect, answerL_sym, ansSym, h1, hctor, Quals.plain, hs]
+    | templ nss name ps q =>
+      simp (config := {decide := true}) [classBody, runL_bind, runL_expect, answerL_sym, ansSym, h1, hctor]
+
+/-- **Round trip for classes** (after `[template<…>] [virtual] class`). -/
+theorem pclassRest_class (c : ClassDecl) (hwf : ClassWF c) (n : Nat) (hn : parentFuel c.parent + membersFuel c.members + 1 ≤ n)
+    (Y : List Lexeme) :
+    runL (pclassRest n c.tmpl c.isVirtual)
+      (.word c.name :: (parentLex c.parent ++ .sym "{" :: (membersLex c.members ++ .sym "}" :: .sym ";" :: Y))) = .ok (.cls c) Y := by
+  obtain ⟨tmpl, virt, name, par, ms⟩ := c
+  obtain ⟨_, hpar, hms, hctor⟩ := hwf
+  simp only at hn hpar hms hctor ⊢
+  have hmi : runL (moreIdents n) (parentLex par ++ .sym "{" :: (membersLex ms ++ .sym "}" :: .sym ";" :: Y)) =
+      .ok [] (parentLex par ++ .sym "{" :: (membersLex ms ++ .sym "}" :: .sym ";" :: Y)) := by
+    have := moreIdents_lex [] n (parentLex par ++ .sym "{" :: (membersLex ms ++ .sym "}" :: .sym ";" :: Y)) (by simp; omega)
+      (by cases par <;> simp (config := {decide := true}) [parentLex, answerL_sym, ansSym])
+    simpa [identsLex] using this
+  have hpc := parent_clause_lex par (parentWF_ty par hpar) n (by omega) (.sym "{" :: (membersLex ms ++ .sym "}" :: .sym ";" :: Y))
+    (noCont_lbrace _) (colon_no_lbrace _)
+  have hcb := classBody_lex tmpl virt name par hpar ms hms hctor n (by omega) Y
+  rw [pclassRest_eq]
+  simp [runL_bind, runL_need, runL_probe, hmi, hpc, semi_no_lbrace, hcb]
+
+/-! ### forward declarations -/
+
+def FwdParentWF : Option Typename → Prop
+  | none => True
+  | some p => p.insts = [] ∧ TyWF (tnToTy p) ∧ hasSpace p.name = false
+
+def fwdParentFuel : Option Typename → Nat
+  | none => 0
+  | some p => tyFuel (tnToTy p)
+
+theorem fwdParentLex_eq (parent : Option Typename) : fwdParentLex parent = parentLex (parent.map tnToTy) := by
+  cases parent <;> rfl
+
+theorem noCont_semi' (X : List Lexeme) : NoCont (.sym ";" :: X) := noCont_semi X
+
+theorem pclassRest_fwd (virt : Bool) (nss : List String) (name : String) (parent : Option Typename) (hpar : FwdParentWF parent)
+    (w : String) (more : List String) (hnames : w :: more = nss ++ [name]) (n : Nat)
+    (hn : more.length + 1 + fwdParentFuel parent ≤ n) (Y : List Lexeme) :
+    runL (pclassRest n none virt) (.word w :: (identsLex more ++ (fwdParentLex parent ++ .sym ";" :: Y))) =
+      .ok (.fwd virt ⟨nss, name, []⟩ parent) Y := by
+  have hsl : splitLast (w :: more) = (nss, name) := by rw [hnames, splitLast_append]
+  have hX : answerL (.lit "::") (fwdParentLex parent ++ .sym ";" :: Y) = .no := by
+    cases parent <;> simp (config := {decide := true}) [fwdParentLex, answerL_sym, ansSym]
+  have hmi := moreIdents_lex more n (fwdParentLex parent ++ .sym ";" :: Y) (by omega) hX
+  have hty : ∀ t, parent.map tnToTy = some t → TyWF t := by
+    intro t ht
+    cases parent with
+    | none => simp at ht
+    | some p => simp at ht; subst ht; exact hpar.2.1
+  have hpc := parent_clause_lex (parent.map tnToTy) hty n
+    (by cases parent <;> simp [parentFuel, fwdParentFuel] at hn ⊢; omega) (.sym ";" :: Y) (noCont_semi _) (colon_no_semi _)
+  rw [← fwdParentLex_eq] at hpc
+  rw [pclassRest_eq]
+  cases parent with
+  | none =>
+    simp (config := {decide := true}) [runL_bind, runL_need, runL_probe, hmi, hpc, answerL_sym, ansSym, fwdBody, hsl]
+  | some p =>
+    obtain ⟨nssp, namep, instsp⟩ := p
+    obtain ⟨hi, _, hs⟩ := hpar
+    simp only at hi hs
+    subst hi
+    simp (config := {decide := true}) [runL_bind, runL_need, runL_probe, hmi, hpc, answerL_sym, ansSym, fwdBody, hsl, tnToTy,
+      Quals.plain, hs]
+
 end WrapModel.Spec
